@@ -27,3 +27,67 @@ Ltac agree_ring :=
   intros; destruct_cplx_vars; norm_num; split_struct; try reflexivity; ring.
 Ltac agree_field OK :=
   intros; destruct_cplx_vars; norm_num; split_struct; try reflexivity; field; numnz OK.
+
+(* ---- agreement up to conditionals -------------------------------------------------
+   For generated code whose conditionals are VALUES or are placed differently from the
+   model's: normalise, turn a/b into a*/b (so that `ring` sees through quotients), make the
+   arguments of the uninterpreted functions (comparisons, min/max/abs, transcendental
+   functions, inverses) syntactically equal where they are ring-equal, case-split on the
+   innermost tests, close the leaves by reflexivity / ring.  The cheap path (no argument
+   unification) is tried first. *)
+Ltac pnorm_c :=
+  cbv -[dyadic add sub mul div opp inv zero one eqb ltb leb nmin nmax nabs Bool.eqb negb andb orb
+        sqrt_ cos_ sin_ tan_ acos_ asin_ atan_ ln_ pi_ hypot_ radians_ degrees_
+        Z.eqb Z.gtb Z.ltb Z.leb Z.geb].
+Ltac uni1 f :=
+  match goal with
+  | |- context [f ?x] =>
+      match goal with
+      | |- context [f ?y] =>
+          tryif constr_eq x y then fail else (replace y with x by ring)
+      end
+  end.
+Ltac uni2 f :=
+  match goal with
+  | |- context [f ?a ?b] =>
+      match goal with
+      | |- context [f ?c ?d] =>
+          first [ tryif constr_eq a c then fail else (replace c with a by ring)
+                | tryif constr_eq b d then fail else (replace d with b by ring) ]
+      end
+  end.
+Ltac uni_all N T :=
+  repeat first [ uni1 (inv N) | uni1 (sqrt_ T) | uni1 (acos_ T) | uni1 (asin_ T) | uni1 (atan_ T)
+               | uni1 (degrees_ T) | uni1 (radians_ T) | uni1 (cos_ T) | uni1 (sin_ T) | uni1 (tan_ T)
+               | uni1 (ln_ T) | uni2 (hypot_ T)
+               | uni1 (nabs N) | uni2 (nmax N) | uni2 (nmin N)
+               | uni2 (ltb N) | uni2 (leb N) | uni2 (eqb N) ].
+Ltac uni_noT N :=
+  repeat first [ uni1 (inv N) | uni1 (nabs N) | uni2 (nmax N) | uni2 (nmin N)
+               | uni2 (ltb N) | uni2 (leb N) | uni2 (eqb N) ].
+Ltac inner_if :=
+  match goal with
+  | |- context [if ?c then _ else _] =>
+      lazymatch c with
+      | context [if _ then _ else _] => fail
+      | _ => destruct c eqn:?
+      end
+  end.
+Ltac red_if := cbv beta iota; cbn [negb andb orb Bool.eqb].
+Ltac split_struct' :=
+  repeat match goal with
+  | |- (_, _) = (_, _) => f_equal
+  | |- Some _ = Some _ => f_equal
+  | |- cons _ _ = cons _ _ => f_equal
+  end.
+Ltac cases_finish := split_struct'; try reflexivity; ring.
+Ltac cases_cheap := repeat (inner_if; red_if); cases_finish.
+(* with the transcendental record T / without it *)
+Ltac agree_cases OK N T :=
+  intros; destruct_cplx_vars; pnorm_c; rewrite ?(Fdiv_def (Fth OK));
+  first [ solve [cases_cheap]
+        | solve [uni_all N T; repeat (inner_if; red_if; uni_all N T); cases_finish] ].
+Ltac agree_cases_noT OK N :=
+  intros; destruct_cplx_vars; pnorm_c; rewrite ?(Fdiv_def (Fth OK));
+  first [ solve [cases_cheap]
+        | solve [uni_noT N; repeat (inner_if; red_if; uni_noT N); cases_finish] ].
